@@ -129,6 +129,8 @@ def calls(rng, matrix, tier):
     for cls in ("plain", "reserved", "unicode"):
         out.append(("attrs", {"b": "ok:" + text_of(cls, rng), "bee": "ok:" + text_of(cls, rng), "sea": rng.choice(INTS), "pq": "ok:" + text_of(cls, rng),
                               "hh": "ok:" + text_of("plain", rng)}, "r", None))
+    for n in INTS:
+        out.append(("regexPath", {"n": n}, "r", None))      # a path parameter behind a regex segment of the template
     out.append(("names", {"type": 1, "fooBar": UUID, "async": 2, "camelCase": None, "self": 3, "snake_arg": [4, 5], "match": True}, "n", None))
     out.append(("safeMix", {"auth": "tok", "safePath": "sp", "unsafePath": "u p/x", "safeQuery": "s&q", "unsafeQuery": "", "safeHeader": "sh",
                             "unsafeHeader": "uh", "dnlQuery": None, "safeInt": 5, "body": {"a": 1}}, "r", None))
